@@ -68,6 +68,7 @@ pub struct Stats {
     pub outside_quantifier: BTreeMap<String, u64>,
     pub samples: Vec<Value>,
     pub panic_sites: BTreeMap<String, u64>,
+    pub digests: Vec<String>,
 }
 
 impl Stats {
@@ -156,6 +157,27 @@ pub fn judge(ctx: &Ctx, case: &Case, o: &Outcome) -> Option<(String, String, Str
 
 fn record(ctx: &Ctx, st: &mut Stats, case: &Case, fault_kind: &str, o: &Outcome, idx: u64, out: &mut Vec<Value>) {
     st.cases += 1;
+    if crate::report::digest_on() {
+        // the scratch path (with the worker's pid) appears in diagnostics
+        let msg = match &o.class {
+            Class::Err(m) => {
+                let mut t = String::new();
+                let mut rest = m.as_str();
+                while let Some(i) = rest.find("/dev/shm/verif-") {
+                    t.push_str(&rest[..i]);
+                    let tail = &rest[i + 15..];
+                    let end = tail.find('/').unwrap_or(tail.len());
+                    t.push_str("<scratch>");
+                    rest = &tail[end..];
+                }
+                t.push_str(rest);
+                fnv64(t.as_bytes())
+            }
+            _ => 0,
+        };
+        let files: u64 = o.files.iter().fold(0u64, |a, (n, v)| a ^ fnv64(n.as_bytes()) ^ v.iter().fold(0u64, |x, (_, b)| x ^ fnv64(b)));
+        st.digests.push(format!("{idx}|{fault_kind}|{:016x}|{}|{}|{:016x}|{:016x}|{:016x}|{}", fnv64(&case.grammar.bytes), case.spec.label(), o.class.tag(), msg, o.trace_hash(), files, o.stat.events));
+    }
     bump(&mut st.by_fault, fault_kind);
     bump(&mut st.outcomes, o.class.tag());
     st.io_events += o.stat.events;
@@ -559,7 +581,8 @@ pub fn work(env: &Env, ctx: &Ctx, w: usize, nw: usize, plan: &Plan) -> Value {
             }
         }
     }
-    json!({"stats": st.to_json(), "violations": viol})
+    let digests = std::mem::take(&mut st.digests);
+    json!({"stats": st.to_json(), "violations": viol, "digests": digests})
 }
 
 pub fn still_fails(env: &Env, ctx: &Ctx, case: &Case, key: &str) -> bool {
